@@ -33,4 +33,34 @@ PROPS = {
     },
 }
 
+PROPS["C09"] = {
+    "lean_modules": ["AvroModel.Props.C09"],
+    "required_theorems": ["refines", "run_refines", "flush_drains", "spec_preserves", "spec_nonempty",
+                          "spec_flush_drains", "spec_pending_below", "spec_blocks_minimal", "frame_shape"],
+    "harness": [("ENC9", "C09")],
+    "level_text": "Proof: for every finite history of Encode/Flush calls, every block size and any compression function, the model of "
+                  "Encoder/FileWriter emits header ++ frames of the reference partition's blocks (exact count, exact byte length, payload, sync), "
+                  "loses/duplicates/reorders nothing, never writes an empty block, closes a block as soon as the threshold is reached and "
+                  "drains on Flush (induction over the call list). Tie: real NewEncoderFor/Encode/Flush with a recording io.Writer on "
+                  "generated histories (sizes around the threshold, three codecs); every Write call is compared with the model and judged "
+                  "by a spec container-header reader; compressed payloads are inflated by independent library calls.",
+    "level_note": "Trusted: Lean kernel; compress/flate, snappy, crc32 (parameters of the model, inverted independently by the harness); record encodings of the two test struct types.",
+    "rule": "Histories over {encode(record of chosen encoded size), flush} from one PRNG, sizes chosen around the block-size threshold, block sizes {0,1,n,2n±1,3n±2,huge}, codecs null/deflate/snappy, record types struct{B []byte} and struct{}.",
+    "trusted": ["compress/flate, snappy, hash/crc32 (model parameter `compress`; harness inflates with direct library calls)"],
+}
+PROPS["C16"] = {
+    "lean_modules": ["AvroModel.Props.C16"],
+    "required_theorems": ["accepted_prefix", "error_surfaces", "runFrom_surfaces", "writeAll_sim", "step_sim", "runFrom_sim"],
+    "harness": [("ENC16", "C16")],
+    "level_text": "Proof: for every failing write index k, every number of bytes accepted by the failing call, every call history and any "
+                  "compressor, what the writer accepted is a byte-for-byte prefix of the fault-free output (simulation between the faulty and the "
+                  "fault-free run), and the call reported as failed is exactly the one that issued write k (earlier calls succeed). Tie: for each "
+                  "generated history every k from 1 to the number of writes (+1) is executed against the real encoder with an injected failing "
+                  "io.Writer (0 / some / all bytes accepted); error identity via errors.Is; accepted bytes compared with the implementation's own "
+                  "fault-free run after substituting the sync marker.",
+    "level_note": "Trusted: Lean kernel; model assumes each w.Write error is checked and returned at once (shape of writeAll) - validated by the exhaustive-per-history fault injection.",
+    "rule": "Same history generator as C09; per history every failing write index k (exhaustive) x acceptance length {0, random proper prefix, all}.",
+    "trusted": ["compress/flate, snappy determinism (fault-free and faulty runs compress identically)"],
+}
+
 NOT_APPLICABLE = {}
